@@ -1,2 +1,44 @@
-Theorem C15_placeholder : True. Proof. exact I. Qed.
-Print Assumptions C15_placeholder.
+(* C15 — reports tell listeners about every change, at valid addresses.
+   Exec.exec / Sim.run_cycle return the report stream in order; Recorder.rec_fold
+   is the literal model of StateRecorder.Report; all three are run against gmars
+   on every run of the check. *)
+From GM Require Import Base Exec Sim Recorder Reports InvSim C15Proof C15Recorder.
+Open Scope N_scope.
+
+(* one task, for every limits: every cell that changes is named by a write /
+   increment / decrement report of this task; every report carries an address
+   below M and this warrior's index; a task-termination report (at the task's
+   own address) is emitted exactly when no successor is queued *)
+Theorem C15_task_reports :
+  forall M rl wl wi, 0 < M -> forall c pc, pc < M ->
+    let '(c', pushes, reps) := exec M rl wl wi c pc in
+    (forall a, get c' a <> get c a -> In a (chg reps)) /\
+    Forall (rep_ok M wi) reps /\
+    (pushes = [] <-> exists r, In r reps /\ r_type r = WarriorTaskTerminate) /\
+    (forall r, In r reps -> r_type r = WarriorTaskTerminate -> r_addr r = pc).
+Proof. exact exec_reports. Qed.
+Print Assumptions C15_task_reports.
+
+(* a whole RunCycle from any state satisfying the invariant: every report other
+   than CycleStart/CycleEnd has an address below M and the index of an existing
+   warrior, and every cell changed by the cycle is named by a change report *)
+Theorem C15_cycle_reports :
+  forall s, Inv s ->
+    match run_cycle s with
+    | Panic => False
+    | Ok (s', _, reps) =>
+        Forall (fun r => r_type r = CycleStart \/ r_type r = CycleEnd \/
+                         rep_valid (s_m s) (length (s_ws s)) r) reps /\
+        (forall a, get (s_mem s') a <> get (s_mem s) a -> In a (chg reps))
+    end.
+Proof. exact run_cycle_reports. Qed.
+Print Assumptions C15_cycle_reports.
+
+(* the recorder never indexes out of range on such a stream and shows, for every
+   address, the kind and owner of the last report that touched it (empty after a reset) *)
+Theorem C15_recorder_last_touch :
+  forall M lens reads evs, 0 < M -> Forall (rep_wf M lens) evs ->
+    exists r, rec_fold M lens reads rec_empty evs = Some r /\
+      forall a, a < M -> rec_get r a = last_touch M lens reads evs a.
+Proof. exact recorder_from_empty. Qed.
+Print Assumptions C15_recorder_last_touch.
